@@ -39,12 +39,15 @@ def _gstate():
 
 # the model's abstract seeds 0, 1, 2 bound to real seed values: as they are, and to seeds that agree modulo 2^32 / 2^64 or sit
 # at the edges of the 32- and 64-bit ranges ("different seeds give different screens" is about ALL seeds)
-SEEDMAPS = [{0: 0, 1: 1, 2: 2}, {0: 11, 1: 2 ** 32 + 11, 2: 2 ** 64 + 11}, {0: 2 ** 31 - 1, 1: 2 ** 31, 2: 2 ** 63}, {0: 2 ** 32 - 1, 1: 2 ** 32, 2: 2 ** 33}]
+SEEDMAPS = [{0: 0, 1: 1, 2: 2}, {0: 11, 1: 2 ** 32 + 11, 2: 2 ** 64 + 11}, {0: 2 ** 31 - 1, 1: 2 ** 31, 2: 2 ** 63}, {0: 2 ** 32 - 1, 1: 2 ** 32, 2: 2 ** 33},
+            "seed-sequence-objects"]      # the last one: each abstract seed is ONE numpy.random.SeedSequence object handed to every call that uses it
 
 
 class World:
     def __init__(self, ao, seedmap=0):
         self.seedmap = SEEDMAPS[seedmap]
+        if self.seedmap == "seed-sequence-objects":
+            self.seedmap = {k: np.random.SeedSequence(900 + k) for k in range(3)}
         self.ao = ao
         from aotools.turbulence import phasescreen, infinitephasescreen, profile_compression
         self.ps, self.ips, self.pc = phasescreen, infinitephasescreen, profile_compression
@@ -53,7 +56,7 @@ class World:
         self.k = 0
 
     def seed_arg(self, s):
-        return self.G if s == -1 else (None if s == -2 else self.seedmap[int(s)])
+        return self.G if s == -1 else (None if s == -2 else self.seedmap[int(s)])      # (an int, or the shared SeedSequence object)
 
     def step(self, rec):
         a = rec["a"]
@@ -61,6 +64,9 @@ class World:
             P = {"A": PA, "B": PB, "A2": PA2}[rec["p"]]
             f = self.ps.ft_phase_screen if a == "ft" else self.ps.ft_sh_phase_screen
             return np.asarray(f(P["r0"], P["N"], P["delta"], P["L0"], P["l0"], seed=self.seed_arg(rec["seed"])))
+        if a == "new" and rec.get("again"):
+            self.objs[rec["o"]].make_initial_screen()              # rewind a used object
+            return np.array(self.objs[rec["o"]].scrn, copy=True)
         if a == "new":
             o = rec["o"]
             if o == "o3":
@@ -254,7 +260,7 @@ def run(run):
                 bad = run_behaviour(ao, hist, ref, sm)
             run.traces += 1
             for key, detail in bad:
-                run.violation(key + (":seeds-beyond-32-bits" if sm else ""), detail, dict(kind="behaviour", hist=hist, seedmap=sm))
+                run.violation(key + ("" if not sm else ":seed-sequence-object-reused" if SEEDMAPS[sm] == "seed-sequence-objects" else ":seeds-beyond-32-bits"), detail, dict(kind="behaviour", hist=hist, seedmap=sm))
     finally:
         np.random.set_state(saved)
     run.sample(behaviours[0])
